@@ -395,11 +395,14 @@ def _evidence(prop, tier, seed, mod, results, violations, known_hits, inconcl, w
         "seed": seed,
         "level": getattr(mod, "LEVEL", "model_checking"),
         "coverage": {
+            "evaluations": max(1, tot.get("paths", 0)),
+            "distinct_nontrivial": tot.get("nontrivial", 0),
             "states": max(1, tot.get("paths", 0)),
             "transitions": max(1, tot.get("branches", 0)),
             "traces_validated_against_impl": validated,
             "samples": samples,
-            "rule": "state = one completed symbolic path (a region of the input space on which the real "
+            "rule": "evaluation = one completed path (distinct by construction: each has its own branch-decision "
+                    "sequence); non-trivial = at least one obligation was discharged on it; state = one completed symbolic path (a region of the input space on which the real "
                     "code takes the same branches); transition = a branch decided by z3; every "
                     "obligation is discharged by an unsat verdict over ALL integer values on that path",
             "exhaustive": not inconcl and not inconclusive,
